@@ -177,7 +177,48 @@ def run_spline(ex):
     close([float(v) for v in yp], list(out[: len(q)]), "CubicSplineInterpolation.predict vs cubic_spline_predict from C")
     return len(xy) >= 4
 
-SUBS = {"containers": run_containers, "pca": run_pca, "pls": run_pls, "cpca": run_cpca, "select": run_select, "spline": run_spline}
+def run_wrappers(ex):
+    """low-level wrappers called directly with generated arguments; references computed in Python"""
+    A, B, v = ex["a"], ex["b"], ex["v"]; r, c = len(A), len(A[0]); c2 = len(B[0])
+    ma = mx.new_matrix(A); mb = mx.new_matrix(B)
+    res = mx.new_matrix([[0.0] * c2 for _ in range(r)]); mx.matrix_dot_product(ma, mb, res)
+    ref = [[sum(A[i][k] * B[k][j] for k in range(c)) for j in range(c2)] for i in range(r)]
+    close(flat(mx.matrix_to_list(res)), flat(ref), "matrix_dot_product", 1e-9)
+    dv = vect.new_dvector(v[:c]); out = vect.new_dvector([0.0] * r); mx.matrix_dvector_dot_product(ma, dv, out)
+    close(vect.dvector_tolist(out), [sum(A[i][j] * v[j] for j in range(c)) for i in range(r)], "matrix_dvector_dot_product", 1e-9)
+    out2 = vect.new_dvector([0.0] * r); mx.mt_matrix_dvector_dot_product(ma, dv, out2); close(vect.dvector_tolist(out2), vect.dvector_tolist(out), "mt_matrix_dvector_dot_product vs single thread", 1e-12)
+    dw = vect.new_dvector((v * 3)[:r]); out3 = vect.new_dvector([0.0] * c); mx.dvector_matrix_dot_product(ma, dw, out3)
+    close(vect.dvector_tolist(out3), [sum(A[i][j] * (v * 3)[i] for i in range(r)) for j in range(c)], "dvector_matrix_dot_product", 1e-9)
+    op = mx.new_matrix([[0.0] * c for _ in range(r)]); mx.row_col_outer_product(dw, dv, op)
+    close(flat(mx.matrix_to_list(op)), [(v * 3)[i] * v[j] for i in range(r) for j in range(c)], "row_col_outer_product", 1e-12)
+    need(mx.get_matrix_value(ma, r - 1, c - 1) == A[r - 1][c - 1], "get_matrix_value"); mx.set_matrix_value(ma, 0, 0, -7.5); need(mx.get_matrix_value(ma, 0, 0) == -7.5, "set_matrix_value")
+    need(list(mx.get_matrix_row(ma, r - 1)) == [A[r - 1][j] if (r - 1, j) != (0, 0) else -7.5 for j in range(c)], "get_matrix_row"); need(list(mx.get_matrix_column(ma, c - 1)) == [A[i][c - 1] if (i, c - 1) != (0, 0) else -7.5 for i in range(r)], "get_matrix_column")
+    mc = mx.init_matrix(); mx.matrix_copy(ma, mc); need(mx.matrix_to_list(mc) == mx.matrix_to_list(ma), "matrix_copy"); mx.matrix_set(mc, 2.5); need(set(flat(mx.matrix_to_list(mc))) == {2.5}, "matrix_set")
+    mx.resize_matrix(mc, 2, 3); need(mx.matrix_to_list(mc) == [[0.0] * 3, [0.0] * 3], "resize_matrix")
+    # square, well conditioned: inversion round trip through the bindings
+    n = min(r, c); S = [[(A[i][j] if i != j else abs(A[i][j]) + 50.0 * n) for j in range(n)] for i in range(n)]
+    ms = mx.new_matrix(S); mi = mx.init_matrix(); mx.matrix_inversion(ms, mi); I = mx.matrix_to_list(mi)
+    prod = [[sum(S[i][k] * I[k][j] for k in range(n)) for j in range(n)] for i in range(n)]
+    need(all(abs(prod[i][j] - (1.0 if i == j else 0.0)) < 1e-8 for i in range(n) for j in range(n)), "matrix_inversion through the bindings: S * S^-1 is not the identity")
+    # vectors
+    d = vect.new_dvector(v); need(vect.get_dvector_value(d, len(v) - 1) == v[-1], "get_dvector_value"); vect.set_dvector_value(d, 0, 9.5); need(vect.dvector_tolist(d)[0] == 9.5, "set_dvector_value")
+    vect.dvector_append(d, 3.25); need(vect.dvector_tolist(d)[-1] == 3.25 and len(vect.dvector_tolist(d)) == len(v) + 1, "dvector_append")
+    vect.dvector_remove_at(d, 0); need(vect.dvector_tolist(d) == v[1:] + [3.25], "dvector_remove_at")
+    dc = vect.dvector_copy(d); need(vect.dvector_tolist(dc) == vect.dvector_tolist(d), "dvector_copy")
+    vect.dvector_set(dc, 1.5); need(set(vect.dvector_tolist(dc)) == {1.5} and vect.dvector_tolist(d) == v[1:] + [3.25], "dvector_set / deep copy")
+    vect.dvector_resize(dc, 3); need(vect.dvector_tolist(dc) == [0.0] * 3, "dvector_resize")
+    u = vect.new_uivector(ex["u"]); vect.uivector_append(u, 77); need(vect.uivector_tolist(u) == ex["u"] + [77], "uivector_append"); vect.set_uivector_value(u, 0, 5); need(vect.get_uivector_value(u, 0) == 5, "set/get_uivector_value")
+    vect.uivector_remove_at(u, 0); need(vect.uivector_tolist(u) == ex["u"][1:] + [77], "uivector_remove_at"); vect.uivector_resize(u, 2); need(vect.uivector_tolist(u) == [0, 0], "uivector_resize")
+    # tensors
+    t = tns.new_tensor(ex["t"]); tns.set_tensor_value(t, 0, 0, 0, 6.5); tl = tns.tensor_tolist(t); need(tl[0][0][0] == 6.5, "set_tensor_value")
+    col = vect.new_dvector([1.0] * len(ex["t"][0])); tns.tensor_append_column(t, 0, col); tl = tns.tensor_tolist(t); need(len(tl[0][0]) == len(ex["t"][0][0]) + 1 and all(row[-1] == 1.0 for row in tl[0]), "tensor_append_column")
+    t2 = tns.init_tensor(); tns.tensor_copy(t, t2); need(tns.tensor_tolist(t2) == tl, "tensor_copy"); tns.tensor_set(t2, 0.5); need(set(x for blk in tns.tensor_tolist(t2) for row in blk for x in row) == {0.5} and tns.tensor_tolist(t) == tl, "tensor_set / deep copy")
+    for o in (ma, mb, res, op, mc, ms, mi): mx.del_matrix(o)
+    for o in (dv, out, out2, dw, out3, d, dc): vect.del_dvector(o)
+    vect.del_uivector(u); tns.del_tensor(t); tns.del_tensor(t2)
+    return r >= 2 and c >= 2
+
+SUBS = {"wrappers": run_wrappers, "containers": run_containers, "pca": run_pca, "pls": run_pls, "cpca": run_cpca, "select": run_select, "spline": run_spline}
 
 # ---------------------------------------------------------------- generators
 if not A.replay:
@@ -216,7 +257,12 @@ if not A.replay:
         for s_ in steps: x += s_ / 8.0; xy.append([x, draw(val)])
         q = [xy[0][0] + (xy[-1][0] - xy[0][0]) * draw(st.integers(0, 100)) / 100.0 for _ in range(draw(st.integers(1, 6)))]
         return {"xy": xy, "q": q}
-    GENS = {"containers": g_containers, "pca": g_pca, "pls": g_pls, "cpca": g_cpca, "select": g_select, "spline": g_spline}
+    @st.composite
+    def g_wrappers(draw):
+        r = draw(st.integers(1, 4)); c = draw(st.integers(1, 4)); c2 = draw(st.integers(1, 3))
+        A = draw(st.lists(st.lists(val, min_size=c, max_size=c), min_size=r, max_size=r)); B = draw(st.lists(st.lists(val, min_size=c2, max_size=c2), min_size=c, max_size=c))
+        return {"a": A, "b": B, "v": draw(st.lists(val, min_size=4, max_size=6)), "u": draw(st.lists(st.integers(0, 1000), min_size=1, max_size=5)), "t": draw(st.lists(mat(1, 3, 1, 3), min_size=1, max_size=2))}
+    GENS = {"wrappers": g_wrappers, "containers": g_containers, "pca": g_pca, "pls": g_pls, "cpca": g_cpca, "select": g_select, "spline": g_spline}
 
 stats = {"subs": {}, "layout_fields": 0, "failures": []}
 cur = os.path.join(A.work or ".", "current_example.json")
